@@ -423,6 +423,13 @@ func (cc *connectUnaryClientConn) validateResponse(response *http.Response) *Err
 			mergeHeaders(serverErr.meta, cc.responseTrailer)
 			return &serverErr
 		}
+		if ctxErr := cc.duplexCall.ctx.Err(); ctxErr != nil {
+			// We couldn't read the error because the call's context ended: that's
+			// the outcome of the call, not what the HTTP status suggests.
+			if connectErr, ok := asError(wrapIfContextError(ctxErr)); ok {
+				return connectErr
+			}
+		}
 		return NewError(
 			connectHTTPToCode(response.StatusCode),
 			errors.New(response.Status),
